@@ -1,7 +1,7 @@
 (* Props/C19.v — C19: cov() is the number of covered positions; union_and_intersect returns the
    cardinalities of the union and of the intersection of the two covered position sets, and is
    symmetric.  Only statements, closed by [exact]; proofs live in CovProofs.v. *)
-From BedV Require Import Base LapperModel LapperProofs LapperSpecs MergeProofs CovProofs.
+From BedV Require Import Base LapperModel LapperProofs LapperSpecs MergeProofs CovProofs RangeProofs.
 
 (* every reachable state over non-empty intervals (new; insert / merge_overlaps / set_cov):
    cov(), cached or recomputed, is the cardinality of the set of covered positions *)
@@ -37,6 +37,12 @@ Theorem C19_union_intersect_reachable : forall W la ha lb hb,
        CardOf (fun p => covered (ivs A) p \/ covered (ivs B) p) u).
 Proof. exact c19_ui_reachable. Qed.
 Print Assumptions C19_union_intersect_reachable.
+
+(* range lemma: the raw additions of calculate_coverage cannot overflow the coordinate type: in every state
+   satisfying the invariant whose stops are <= W, cov() <= W (and the running sum is monotone, cov_loop_mono) *)
+Theorem C19_cov_no_overflow : forall W L, LInvNE L -> (forall i, In i (ivs L) -> en i <= W) -> lcov L <= W.
+Proof. exact lcov_no_overflow. Qed.
+Print Assumptions C19_cov_no_overflow.
 
 (* non-vacuity: covered A = [1,8) u [10,12) (9 positions), covered B = [2,4) u [7,11) (6 positions),
    intersection = [2,4) u [7,8) u [10,11) (4), union = 11; both through the unmerged branch
